@@ -171,6 +171,8 @@ _FIXED = []
 
 
 def check_exhaustive(item, ctx):
+    if "spec" in item:
+        return run_history(item, ctx)
     if not _FIXED:
         _FIXED.extend(fixed_specs())
     spec = _FIXED[item["dataset"]]
